@@ -398,6 +398,13 @@ func CFRun(it *harness.Interp, cfg CFConfig, t *tape.Tape, seed, run uint64, st 
 				where = exp0.RaisePath // same invocations, other ending: name the place the expected error comes from
 			}
 			v.Signature = fmt.Sprintf("%s/clean/%s/%s", cfg.Prop, where, j0.what)
+			if hasVarCallArgs(prog) {
+				// does the run show exactly the recorded finding "the argument list of a variable
+				// call is never evaluated" and nothing else? then it is named after it
+				if alt := gen.RunWith(prog, nil, gen.Deviations{VarCallArgsIgnored: true}); alt.Unsure == "" && judge(prog, alt, r0, "").what == "" {
+					v.Signature = fmt.Sprintf("%s/clean/known-deviation>varcall/arg/%s", cfg.Prop, j0.what)
+				}
+			}
 			viols = append(viols, v)
 		} else {
 			st.CleanSkipped++
@@ -486,6 +493,16 @@ func skeleton(p *gen.Program) string {
 
 // pathOf returns the dynamic role path of the first invocation of slot id in the
 // model's trace (fallback: the static role).
+func hasVarCallArgs(p *gen.Program) bool {
+	found := false
+	gen.Walk(&gen.N{L: p.Stmts}, func(n *gen.N) {
+		if n.K == gen.KVarC && (len(n.L) > 0 || len(n.Kw) > 0) {
+			found = true
+		}
+	})
+	return found
+}
+
 func pathOf(o gen.Outcome, id int, pos int, fallback string) string {
 	if pos >= 0 && pos < len(o.Paths) {
 		return o.Paths[pos] // the dynamic path of the very invocation that is missing or different
